@@ -199,7 +199,8 @@ def unblock_future(ctx, db, rid_='C13.unblock-future'):
             for i, it in enumerate(tr):
                 if it.k == 'branch':
                     ce = cond_event(tr, i)
-                    if (ce is not None and ce.k == 'call' and norm(ce.get('callee')) == P + '::done') or any(tests(it, c) for c in calls(tr) if norm(c.get('callee')) == P + '::done'):
+                    if (ce is not None and ce.k == 'call' and norm(ce.get('callee')) == P + '::done') or any(tests(it, c) for c in calls(tr) if norm(c.get('callee')) == P + '::done') or \
+                            (it.path or '') == 'this->_done':          # the flag done() answers with (done-means-returned), read directly
                         done = bool(it.val)
                     if ce is not None and ce.k == 'call' and 'exception_ptr::operator bool' in norm(ce.get('callee') or ''):
                         exc = bool(it.val)
@@ -241,7 +242,7 @@ def sync_block(ctx, db, rid_='C13.sync-block'):
     seen_bad = None
     for f in fns[:3]:
         for tr in [t for t in T.traces(f) if live(t)]:
-            st = index_of(tr, lambda ev: ev.k == 'call' and atomic.is_atomic_call(ev) and atomic.opname(ev) == 'store' and norm(ev.get('field') or '') == P + '::_block' and (ev.get('args') or [{}])[0].get('const') == 0)
+            st = index_of(tr, lambda ev: ev.k == 'call' and atomic.is_atomic_call(ev) and atomic.opname(ev) in ('store', 'operator=') and norm(ev.get('field') or '') == P + '::_block' and (ev.get('args') or [{}])[0].get('const') == 0)
             rs = index_of(tr, lambda ev: ev.k == 'call' and norm(ev.get('callee')) == 'std::coroutine_handle::resume')
             wt = index_of(tr, lambda ev: ev.k == 'call' and atomic.is_atomic_call(ev) and atomic.opname(ev) == 'wait' and norm(ev.get('field') or '') == P + '::_block')
             if not (0 <= st < rs < wt):
